@@ -388,6 +388,7 @@ impl Pool {
         let mut hd = guard.take().unwrap();
         drop(hd.stdin);
         let status = hd.child.wait().ok();
+        remove_scratch(hd.child.id());
         self.restarts.fetch_add(1, Ordering::Relaxed);
         if let Some(v) = verdict {
             return v;
@@ -424,7 +425,19 @@ impl Drop for Pool {
             if let Some(mut h) = s.h.lock().unwrap().take() {
                 let _ = h.child.kill();
                 let _ = h.child.wait();
+                remove_scratch(h.child.id());
             }
         }
     }
+}
+
+/// A worker that exits or is killed in the middle of a path-based load leaves its scratch file behind.
+fn remove_scratch(pid: u32) {
+    use std::os::unix::ffi::OsStringExt;
+    let mut p = std::env::temp_dir().into_os_string().into_vec();
+    p.extend_from_slice(b"/worker-\xff\xfe-");
+    p.extend_from_slice(pid.to_string().as_bytes());
+    p.extend_from_slice(b".ase");
+    let _ = std::fs::remove_file(std::path::PathBuf::from(std::ffi::OsString::from_vec(p)));
+    let _ = std::fs::remove_file(std::env::temp_dir().join(format!("worker-{}.ase", pid)));
 }
